@@ -544,6 +544,20 @@ def reference_prover_rejected(f):
     return (len(bad) == 2), bad[:1]
 
 
+def noncanonical_accepted(f):
+    """C05/C15: a proof in which one scalar is replaced by another 32-byte encoding of the same value (value + group order) is decoded and accepted"""
+    bad = []
+    for seed in (1, 2):
+        o = run_replay(f.cfg, seed)
+        if 'crash' in o:
+            return None, o
+        t = (o.get('tamper') or [None])[0]
+        acc = any(v['result'] == 'ok' for v in (o.get('verify') or []))
+        if t and t.get('decoded') and acc:
+            bad.append({'decoded': True, 'verify': [(v['action'], v['result']) for v in o['verify']]})
+    return (len(bad) == 2), bad[:1]
+
+
 def relation_disagrees(f):
     """C02: the library's verdict differs from the independent unoptimised evaluation of the relation
     (replay crate, refimpl.rs) on an honest proof or on a perturbed proof of the same configuration"""
